@@ -410,11 +410,15 @@ def gen_plant(ch, g, name, nodes, feats, kind="Plant"):
             a["time_already_off"] = d_(10 * g.dt[0] * MTU_H[g.mtu], g)
         a["_initial"] = ini
     if "uc_costs" in feats:
-        sc = ch.pick(name + ".start_costs", [0.0, 7.0])
-        if sc:
+        sc = ch.pick(name + ".start_costs", [0.0, 7.0, "dict_partial"])
+        if sc == "dict_partial":   # interval data covering part of the horizon only: the rest takes the default 0
+            a["start_costs"] = interval_dict(g, [((("gp", 0), ("gp", max(1, g.T // 2))), 7.0)])
+        elif sc:
             a["start_costs"] = sc
-        rc = ch.pick(name + ".running_costs", [0.0, 0.5])
-        if rc:
+        rc = ch.pick(name + ".running_costs", [0.0, 0.5, "dict_partial"])
+        if rc == "dict_partial":
+            a["running_costs"] = interval_dict(g, [((("gp", max(1, g.T // 2)), ("gp", g.T)), r(0.5, g))])
+        elif rc:
             a["running_costs"] = r(rc, g)
     if kind != "Plant":
         if "chp_heat" in feats:
